@@ -23,20 +23,20 @@ Section Abort.
          heap s' = heap s /\ vecs s' = vecs s /\ same_elems s s').
   Proof.
     intros Hv Hb Hc Hlen. unfold grow.
-    rewrite (bind_val _ _ _ _ _ (len_at cfg _ _ _ _ Hcfg Hv Hb)).
-    assert (E1 : (if release cfg then ret tt else if h_len bl <=? c then ret tt else panic) s = (Val tt, s)).
-    { destruct (release cfg); [reflexivity|]. assert (E : (h_len bl <=? c) = true) by (apply Z.leb_le; lia). rewrite E. reflexivity. }
+    assert (E1 : (if release cfg then ret tt else l0 <- len v ;; if l0 <=? c then ret tt else panic) s = (Val tt, s)).
+    { destruct (release cfg); [reflexivity|]. rewrite (bind_val _ _ _ _ _ (len_at cfg _ _ _ _ Hcfg Hv Hb)).
+      assert (E : (h_len bl <=? c) = true) by (apply Z.leb_le; lia). rewrite E. reflexivity. }
     rewrite (bind_val _ _ _ _ _ E1).
     rewrite (bind_val _ _ _ _ _ (capacity_at cfg _ _ _ _ Hcfg Hv Hb)).
-    rewrite (bind_val _ _ _ _ _ (is_default_at _ _ _ _ Hv)).
-    cbn [andb negb].
-    destruct (Z.eqb_spec c (h_cap bl)) as [Ec|Ec]; [simpl; exact I|].
-    cbn [andb].
+    destruct (Z.eqb_spec c (h_cap bl)) as [Ec|Ec].
+    { rewrite bind_assoc. rewrite (bind_val _ _ _ _ _ (is_default_at _ _ _ _ Hv)). rewrite bind_ret. simpl. exact I. }
+    rewrite bind_ret.
     destruct (make_layout cfg c (h_align bl)) as [[nsize nalign]|] eqn:Eml; [|simpl; exact I].
     rewrite lift_opt_some. rewrite bind_ret.
     rewrite (bind_val _ _ _ _ _ (len_at cfg _ _ _ _ Hcfg Hv Hb)).
-    rewrite (bind_val _ _ _ _ _ (vec_handle_at _ _ _ _ Hv)).
+    rewrite (bind_val _ _ _ _ _ (is_default_at _ _ _ _ Hv)).
     pose proof (bo_layout _ _ Hb) as Hlay. rewrite Hlay. rewrite lift_opt_some. rewrite bind_assoc. rewrite bind_ret.
+    rewrite bind_assoc. rewrite (bind_val _ _ _ _ _ (vec_handle_at _ _ _ _ Hv)).
     cbn [fst snd].
     destruct (do_realloc_spec s b bl nsize (proj2 Hv) (bo_live _ _ Hb)) as (r & s1 & Hre & Hv1 & Hs1 & Hcase).
     rewrite (bind_val _ _ _ _ _ Hre).
@@ -60,14 +60,18 @@ Section Abort.
     assert (Hl : len v s = (Val 0, s)) by (unfold len; rewrite (bind_val _ _ _ _ _ Hh); reflexivity).
     assert (Hcap : capacity v s = (Val 0, s)) by (unfold capacity; rewrite (bind_val _ _ _ _ _ Hh); reflexivity).
     assert (Hd : is_default v s = (Val true, s)) by (unfold is_default; rewrite (bind_val _ _ _ _ _ Hh); reflexivity).
-    rewrite (bind_val _ _ _ _ _ Hl).
-    assert (E1 : (if release cfg then ret tt else if 0 <=? c then ret tt else panic) s = (Val tt, s)).
-    { destruct (release cfg); [reflexivity|]. assert (E : (0 <=? c) = true) by (apply Z.leb_le; lia). rewrite E. reflexivity. }
+    assert (E1 : (if release cfg then ret tt else l0 <- len v ;; if l0 <=? c then ret tt else panic) s = (Val tt, s)).
+    { destruct (release cfg); [reflexivity|]. rewrite (bind_val _ _ _ _ _ Hl).
+      assert (E : (0 <=? c) = true) by (apply Z.leb_le; lia). rewrite E. reflexivity. }
     rewrite (bind_val _ _ _ _ _ E1).
-    rewrite (bind_val _ _ _ _ _ Hcap). rewrite (bind_val _ _ _ _ _ Hd).
-    destruct ((c =? 0) && negb (true && (max_align cfg <? a))); [simpl; exact I|].
+    rewrite (bind_val _ _ _ _ _ Hcap).
+    assert (Hearly : (if c =? 0 then dflt <- is_default v ;; ret (negb (if dflt then max_align cfg <? a else false)) else ret false) s
+                     = (Val ((c =? 0) && negb (max_align cfg <? a)), s)).
+    { destruct (c =? 0); [|reflexivity]. rewrite (bind_val _ _ _ _ _ Hd). reflexivity. }
+    rewrite (bind_val _ _ _ _ _ Hearly).
+    destruct ((c =? 0) && negb (max_align cfg <? a)); [simpl; exact I|].
     destruct (make_layout cfg c a) as [[nsize nalign]|] eqn:Eml; [|simpl; exact I].
-    rewrite lift_opt_some, bind_ret, (bind_val _ _ _ _ _ Hl), (bind_val _ _ _ _ _ Hh).
+    rewrite lift_opt_some, bind_ret, (bind_val _ _ _ _ _ Hl), (bind_val _ _ _ _ _ Hd).
     destruct (do_alloc_spec s nsize nalign) as (r & s1 & Hre & Hv1 & Hs1 & Hcase); rewrite (bind_val _ _ _ _ _ Hre).
     destruct Hcase as [[-> Hh1]|[-> Hh1]].
     - simpl. split; [reflexivity|]. split; [assumption|]. split; assumption.
